@@ -37,6 +37,11 @@ def menu():
              'set "m" zone 1', 'set "m" zone 0 2', 'get "s"', 'get "m"', 'set "a" zone 1 and "h"']
     for c in cmds:
         out.append('hue 120 saturation 50 brightness 40 kelvin 2700 duration 1 print 1 %s print 2 on "%s" print 3' % (c, HEALTHY))
+    # state left by a command on a real matrix light or strip must not leak into a later wrong-type command
+    for first in ('set "m" row 0 column 1', 'set "m" begin stage row 1 end', 'set "s" zone 1 3'):
+        for second in ('set "a" row 5', 'set "a" column 7', 'set "s" row 4 column 4', 'set "nobody" row 9', 'set "a" zone 7',
+                       'set "m" zone 6', 'set "a" begin stage row 5 column 6 end'):
+            out.append('hue 120 saturation 50 brightness 40 kelvin 2700 print 1 %s %s print 2 on "%s" print 3' % (first, second, HEALTHY))
     # a loop keeps going over a silent light
     out.append('repeat all as l begin on l end print 2 on "h" print 3')
     out.append('define f with l begin get l set l end f "a" print 2 f "h" print 3')
